@@ -24,6 +24,10 @@ def run(ctx, L, tier):
     paths(ctx, L)
     shared_state(ctx, L)
     output_names(ctx, L)
+    from . import c16
+    c16.cache_and_cycle(ctx, L)      # cross-file state: results cached per absolute path only
+    c16.dir_stack(ctx, L)
+    c16.one_processor(ctx, L)
     return sorted(set(o.rule for o in L.obligations))
 
 
